@@ -23,7 +23,7 @@ func selectionStream(meta *common.Meta, c *corpus, infos []*linter.CheckerInfo, 
 }
 
 // fullOutcomes runs ALL checkers (one set per worker, built on contexts with the given sizes) over files.
-func fullOutcomes(c *corpus, infos []*linter.CheckerInfo, files []*fw.File, sizes types.Sizes) map[string][]fw.Outcome {
+func fullOutcomes(c *corpus, infos []*linter.CheckerInfo, files []*fw.File, sizes types.Sizes, goVersion string) map[string][]fw.Outcome {
 	out := map[string][]fw.Outcome{}
 	var mu sync.Mutex
 	byPkg := map[*fw.Pkg][]*fw.File{}
@@ -44,7 +44,7 @@ func fullOutcomes(c *corpus, infos []*linter.CheckerInfo, files []*fw.File, size
 		wg.Add(1)
 		go func() {
 			defer wg.Done()
-			set, err := fw.NewSetSizes(c.fset, infos, sizes)
+			set, err := fw.NewSetConfigured(c.fset, infos, sizes, goVersion)
 			if err != nil {
 				return
 			}
@@ -90,10 +90,17 @@ func selectionForeign(meta *common.Meta, c *corpus, infos []*linter.CheckerInfo,
 			f.p.Value = f.old
 		}
 	}()
-	full := fullOutcomes(c, infos, files, sizes)
-	selectionUnder(meta, c, infos, files, full, sizes, "GOARCH=386 type sizes, every boolean parameter flipped")
+	curGoVersion = "1.20" // below the newest version gates (min/max/clear are 1.21 builtins, ...); 1.13 in the second round
+	full := fullOutcomes(c, infos, files, sizes, curGoVersion)
+	selectionUnder(meta, c, infos, files, full, sizes, "GOARCH=386 type sizes, every boolean parameter flipped, -go=1.20")
+	curGoVersion = "1.13"
+	full = fullOutcomes(c, infos, files, sizes, curGoVersion)
+	selectionUnder(meta, c, infos, files, full, sizes, "GOARCH=386 type sizes, every boolean parameter flipped, -go=1.13")
+	curGoVersion = ""
 	meta.Distribution["selection_foreign_bool_params_flipped"] = len(flipped)
 }
+
+var curGoVersion string
 
 func selectionUnder(meta *common.Meta, c *corpus, infos []*linter.CheckerInfo, files []*fw.File, full map[string][]fw.Outcome, sizes types.Sizes, label string) {
 	type diff struct {
@@ -106,7 +113,7 @@ func selectionUnder(meta *common.Meta, c *corpus, infos []*linter.CheckerInfo, f
 	evals := make([]int, len(infos))
 	warned := make([]int, len(infos))
 	fw.Parallel(len(infos), func(ci int) {
-		set, err := fw.NewSetSizes(c.fset, []*linter.CheckerInfo{infos[ci]}, sizes)
+		set, err := fw.NewSetConfigured(c.fset, []*linter.CheckerInfo{infos[ci]}, sizes, curGoVersion)
 		if err != nil {
 			return
 		}
@@ -150,4 +157,34 @@ func selectionUnder(meta *common.Meta, c *corpus, infos []*linter.CheckerInfo, f
 	meta.Distribution["selection_alone_vs_all_comparisons"] = prev + total
 	meta.Distribution["selection_comparisons_with_warnings"] = prevW + nonTrivial
 	meta.Evaluations += total
+}
+
+// poisonProbe: differently configured runs in the same process (another target, other parameter values, an older -go) must
+// leave nothing behind. After them, every checker is run once more in the default configuration and compared with what it
+// reported BEFORE (full: the registry-order pass at the start of the run): a package-level table edited by a constructor or
+// a Check under some configuration shows as a difference here, whichever checker reads it.
+func poisonProbe(meta *common.Meta, c *corpus, infos []*linter.CheckerInfo, files []*fw.File, before map[string][]fw.Outcome) {
+	after := fullOutcomes(c, infos, files, fw.Sizes, "")
+	n, reported := 0, map[string]bool{}
+	for _, f := range files {
+		b, a := before[f.ID()], after[f.ID()]
+		if b == nil || a == nil {
+			continue
+		}
+		for ci := range infos {
+			n++
+			if !a[ci].Equal(b[ci]) && !reported[infos[ci].Name] {
+				if unstable, _ := fw.FreshUnstable(infos[ci], f, b[ci], b[ci]); unstable {
+					continue
+				}
+				reported[infos[ci].Name] = true
+				meta.Fail("C05/"+infos[ci].Name+"/process-state-poisoned",
+					fmt.Sprintf("%s reports differently on %s after checkers were constructed and run under another configuration (GOARCH=386 sizes, flipped boolean parameters, -go=1.20 / 1.13) in the same process", infos[ci].Name, f.ID()),
+					map[string]interface{}{"checker": infos[ci].Name, "file": f.Path, "before": fw.Strs(b[ci].Ws), "after": fw.Strs(a[ci].Ws), "panic_before": b[ci].Panic, "panic_after": a[ci].Panic,
+						"replay": "run all checkers (default configuration) on the file; construct all checkers on a context with SetGoVersion(\"1.20\") and run them; run the default configuration again and compare"})
+			}
+		}
+	}
+	meta.Distribution["poison_probe_comparisons"] = n
+	meta.Evaluations += n
 }
